@@ -1,0 +1,9 @@
+//go:build verif
+
+package memberlist
+
+// VerifSetMaxCasRetries sets the CAS retry budget of a KV that is not yet in use
+// (the tests do the same through the unexported field). Add-only verification hook (property C07).
+func VerifSetMaxCasRetries(m *KV, n int) {
+	m.maxCasRetries = n
+}
